@@ -430,6 +430,9 @@ func (e *Engine) sortOfMap(g *FuncGen, name string) string {
 // NewFuncGen prepares generation for one function.
 func (e *Engine) NewFuncGen(fn *ssa.Function, c *Contract) *FuncGen {
 	core := &Core{eng: e, w: NewWorld(), rootC: c}
+	if c != nil && c.Strings {
+		core.w.useStrings = true
+	}
 	g := &FuncGen{Core: core, fn: fn, c: c}
 	if fn != nil && fn.Pkg != nil {
 		g.pkg = fn.Pkg.Pkg
